@@ -74,11 +74,28 @@ func init() {
 	})
 
 	// ---- runtime
+	// GOMAXPROCS: one arbitrary value in [1, maxProcs] per path (every call with n < 1 reads the
+	// same value); NumCPU: an arbitrary value in [1, 2*maxProcs], not tied to GOMAXPROCS (a process
+	// may run with GOMAXPROCS below the number of CPUs).
 	reg("runtime.GOMAXPROCS", func(fr *frame, args []Value) Value {
 		ex := fr.ex
-		v := ex.freshVar("GOMAXPROCS", smt.BV(64), "int")
 		c := ex.ctx
-		ex.assume(c.And(c.Cmp(smt.OpSLe, c.ConstS(64, 1), v), c.Cmp(smt.OpSLe, v, c.ConstS(64, int64(ex.maxProcs())))))
+		if ex.gomaxprocs == nil {
+			v := ex.freshVar("GOMAXPROCS", smt.BV(64), "int")
+			ex.assume(c.And(c.Cmp(smt.OpSLe, c.ConstS(64, 1), v), c.Cmp(smt.OpSLe, v, c.ConstS(64, int64(ex.maxProcs())))))
+			ex.gomaxprocs = v
+		}
+		prev := ex.gomaxprocs
+		if n, ok := args[0].(*smt.Term); ok && n.IsConst() && n.SVal() >= 1 {
+			ex.gomaxprocs = n
+		}
+		return prev
+	})
+	reg("runtime.NumCPU", func(fr *frame, args []Value) Value {
+		ex := fr.ex
+		c := ex.ctx
+		v := ex.freshVar("NumCPU", smt.BV(64), "int")
+		ex.assume(c.And(c.Cmp(smt.OpSLe, c.ConstS(64, 1), v), c.Cmp(smt.OpSLe, v, c.ConstS(64, int64(2*ex.maxProcs())))))
 		return v
 	})
 	reg("runtime.Gosched", func(fr *frame, args []Value) Value { return nil })
